@@ -540,6 +540,36 @@ func init() {
 		w.finish("getcapblock-result", h)
 		w.step()
 	})
+	// the same proxy client is requested twice from a pending answer (Future.Client), then used
+	reg("futureclient", func(w *world) {
+		boot, ok := w.bootstrap()
+		if !ok {
+			return
+		}
+		h := w.send("getcapblock", boot, w.ctx, mGetCapBlock, nil)
+		if !w.step() || !h.t.finished() {
+			return
+		}
+		var c1 *capnp.Client
+		t := w.do("future-client-twice", func() {
+			c1 = h.ans.Field(0, nil).Client()
+			h.ans.Field(0, nil).Client()
+		})
+		if !w.step() || !t.finished() {
+			return
+		}
+		p := w.send("echo-on-future", c1, w.ctx, mEcho, nil)
+		if !w.step() {
+			return
+		}
+		w.openGate()
+		if !w.step() {
+			return
+		}
+		w.finish("echo-on-future-result", p)
+		w.finish("getcapblock-result", h)
+		w.step()
+	})
 	reg("pipeready", func(w *world) {
 		boot, ok := w.bootstrap()
 		if !ok {
